@@ -972,6 +972,9 @@ class _GenerateRenderMethod:
         self.printer.writeline("def ccall(caller):")
         export = ["body"]
         callable_identifiers = self.identifiers.branch(node, nested=True)
+        # the defs of the call take 'caller' from the call stack, also when
+        # the enclosing callable has it declared because it mentions it
+        callable_identifiers.declared.discard("caller")
         body_identifiers = callable_identifiers.branch(node, nested=False)
         # we want the 'caller' passed to ccall to be used
         # for the body() function, but for other non-body()
